@@ -111,6 +111,27 @@ canon_state(int where, int extra)
 	mc_state(b, n);
 }
 
+/* Does the event loop's own table still hold live registration #id (cookie id+1)?  (immediates and timers; sockets are covered by the poll-set rule) */
+static int
+impl_holds(int id)
+{
+	size_t i, k; int minq, pr[16]; void * ck[16];
+	if (R[id].kind == K_IMM) { k = verif_evimm_dump(&minq, pr, ck, 16); for (i = 0; i < k && i < 16; i++) if (ck[i] == (void *)(uintptr_t)(id + 1)) return 1; return 0; }
+	if (R[id].kind == K_TMR) { k = verif_evtimer_n(); for (i = 0; i < k; i++) { struct timeval tv, orig; void * c; verif_evtimer_at(i, &tv, &c, &orig); if (c == (void *)(uintptr_t)(id + 1)) return 1; } return 0; }
+	return 1;
+}
+/* "events not yet run stay registered": every registration the monitor holds live is still in the loop's tables */
+static void
+check_still_registered(const char * when)
+{
+	int j;
+	for (j = 0; j < nreg; j++) if (R[j].live && !impl_holds(j)) {
+		if (want_c05) mc_fail("C05:lost-registration", "%s: %s registration #%d was neither run nor cancelled, yet the event loop no longer holds it", when, kname(R[j].kind), j);
+		else mc_fail("C04:lost-registration", "%s: %s registration #%d was neither run nor cancelled, yet the event loop no longer holds it", when, kname(R[j].kind), j);
+		return;
+	}
+}
+
 /* ---- environment: poll ---- */
 int
 poll(struct pollfd * fds, nfds_t n, int timeout)
@@ -328,6 +349,7 @@ body(void)
 	memset(hup_latest, 0, sizeof(hup_latest));
 	for (;;) {
 		int c, j;
+		if (!mc_failed()) check_still_registered("between operations");
 		if (mc_failed()) break;
 		canon_state(0, 0);
 		if (ops_used >= op_bound) break;
@@ -361,17 +383,25 @@ body(void)
 static void
 teardown(void)
 {
-	int j, minq, pr[4]; void * ck[4];
+	int j, minq, pr[4], lost = 0; void * ck[4];
 	for (j = 0; j < nreg; j++) if (R[j].live) {
+		/* never hand a dangling handle back to the library: a registration it lost is reported, not cancelled */
+		if (R[j].kind != K_NET && !impl_holds(j)) { R[j].live = 0; lost = 1; continue; }
 		if (R[j].kind == K_IMM) events_immediate_cancel(R[j].h);
 		else if (R[j].kind == K_NET) events_network_cancel(R[j].fd, R[j].dir);
 		else events_timer_cancel(R[j].h);
 		R[j].live = 0;
 	}
+	if (lost) mc_poison();
 	nreg = 0; in_run = 0; done_flag = 0;
 	teardown_mode = 1; events_run(); teardown_mode = 0;
 	if (verif_evnet_nfds() != 0 || verif_evimm_dump(&minq, pr, ck, 4) != 0 || verif_evtimer_n() != 0 || verif_ev_intr())
-		vf_engine_error("teardown did not return the event loop to its pristine state");
+	{
+		/* everything the monitor knows of has been cancelled: what is left was kept (or lost track of) by the event loop */
+		if (want_c04) mc_fail("C04:leftover-registration", "after cancelling every registration the event loop still holds something (a registration was dropped from or duplicated in its tables)");
+		else mc_fail("C05:leftover-registration", "after cancelling every registration the event loop still holds something (events not yet run must stay registered exactly once)");
+		mc_poison();
+	}
 }
 
 int
